@@ -23,6 +23,8 @@ mod storage;
 pub mod tcp;
 mod tree;
 pub mod types;
+#[cfg(feature = "verif")]
+pub mod verif;
 
 pub use common::*;
 /// Jemalloc apparently has better alignment guarantees than rust's standard allocator.
